@@ -85,6 +85,12 @@ def justPre (c : Case) : Option (List (List Ev)) :=
     some [((parseInts (s.drop 5).toString).map Ev.next) ++ [Ev.complete]]
   else none
 
+/-- C09: the k-th upstream subscription is made with the context of the subscriber that created generation k
+    (subscriber i subscribes with the markers 7, 70+i) -/
+def renderUctx (s : Ro.Share.St) : String :=
+  let l := ((List.range s.ngens).filter (fun g => (s.gens g).upSub)).map fun g => s!"7.{70 + (s.gens g).creator}"
+  if l.isEmpty then "-" else ";".intercalate l
+
 def run (c : Case) : String :=
   match (justPre c).orElse (fun _ => parsePre (c.getD "pre" "-")), parseNEvents (c.getD "ev" "-") with
   | some pre, some evs =>
@@ -93,7 +99,8 @@ def run (c : Case) : String :=
     | some cfg =>
       let s := Ro.Share.nrun cfg evs
       let up := if (justPre c).isSome then [] else (Ro.Share.ncounters cfg {} evs).map fun p => s!"{p.1}/{p.2}"
-      s!"res {c.id} traces={renderTraces (Ro.Share.traces s)} up={renderList up} drops={renderList (s.drops.map renderEv)} unhandled=- escaped=-"
+      let uctx := if (justPre c).isSome then "-" else renderUctx s
+      s!"res {c.id} traces={renderTraces (Ro.Share.traces s)} up={renderList up} drops={renderList (s.drops.map renderEv)} unhandled=- escaped=- uctx={uctx}"
   | _, _ => s!"res {c.id} bad-case"
 
 /-! ### kind=sharet: a subscriber re-subscribes from inside its terminal callback
@@ -141,7 +148,7 @@ def runTerm (c : Case) : String :=
       | some (evs, rep) =>
         let s := Ro.Share.nrun cfg evs
         let up := ((Ro.Share.ncounters cfg {} evs).zip rep).filterMap fun (p, r) => if r then some s!"{p.1}/{p.2}" else none
-        s!"res {c.id} traces={renderTraces (Ro.Share.traces s)} up={renderList up} drops={renderList (s.drops.map renderEv)} unhandled=- escaped=-"
+        s!"res {c.id} traces={renderTraces (Ro.Share.traces s)} up={renderList up} drops={renderList (s.drops.map renderEv)} unhandled=- escaped=- uctx={renderUctx s}"
 
 /-! ### connectable -/
 
